@@ -31,8 +31,7 @@ def main():
         if shard.get("forms"):
             import numpy as _np
             for b in (B if isinstance(B, tuple) else (B,)):
-                if b.name == "np":
-                    type(b).flavours = _np.random.default_rng([seed, 4242, shard.get("salt", 0)])
+                type(b).flavours = _np.random.default_rng([seed, 4242, shard.get("salt", 0)])
         hooks = []
         if not shard.get("no_hooks"):
             for b in (B if isinstance(B, tuple) else (B,)):
@@ -42,7 +41,7 @@ def main():
         mod.run(shard, rec, B)
         rec.note("workload_s", time.time() - t0)
         if shard.get("forms"):
-            rec.note("array_forms_handed_to_library", dict(backends.NP.flavour_counts))
+            rec.note("array_forms_handed_to_library", {"np": dict(backends.NP.flavour_counts), "torch": dict(backends.TORCH.flavour_counts)})
     except BaseException as e:
         tb = traceback.extract_tb(e.__traceback__)
         repo = os.path.realpath(os.environ.get("VP_REPO", "/repo")) + os.sep
